@@ -116,9 +116,11 @@ def generate(seed, scratch):
         cmd_perm[p["name"]] = pp
     share = list(range(len(names)))
     rs.shuffle(share)
+    fresh = sorted(rs.sample(range(len(ents)), min(len(ents), 3))) if ents else []
     return {"property": PID, "seed": seed, "world": world, "cfg": cfg,
             "schedule": {"partition": partition, "subset": sub, "platform_order": plat_perm,
-                         "command_order": cmd_perm, "share_order": share, "cli": rs.random() < 0.5}}
+                         "command_order": cmd_perm, "share_order": share, "cli": rs.random() < 0.5,
+                         "fresh_sample": fresh}}
 
 
 def _sub_world_dbs(world, top, group, tag):
@@ -175,14 +177,30 @@ def execute(case, scratch):
         iso = []
         iso_exc = None
         skip = set(sched.get("skip", []))
-        for g in ([] if "iso" in skip else all_ents):
-            o = core.run_api(world, top, analyses=[{"platforms": _sub_world_dbs(world, top, [g], "iso"),
-                                                    "excludes": excl}])["obs"][0]
-            stats["variants"] += 1
-            if o["exc"]:
-                iso_exc = o["exc"]
-                break
-            iso.append(o)
+        # every command alone (own ParserState, own Platform): all of them inside one child ...
+        if "iso" not in skip and all_ents:
+            analyses = [{"platforms": _sub_world_dbs(world, top, [g], f"iso{gi}"), "excludes": excl}
+                        for gi, g in enumerate(all_ents)]
+            iso = core.run_api(world, top, analyses=analyses)["obs"]
+            stats["variants"] += len(all_ents)
+            for o in iso:
+                if o["exc"]:
+                    iso_exc = o["exc"]
+                    break
+            # ... and a scheduler-chosen sample of them each in a pristine interpreter (module-level state)
+            if not iso_exc:
+                for gi in [x for x in sched.get("fresh_sample", []) if x < len(all_ents)]:
+                    o = core.run_api(world, top, analyses=[analyses[gi]])["obs"][0]
+                    stats["variants"] += 1
+                    stats["faults"]["fresh_single_command"] = stats["faults"].get("fresh_single_command", 0) + 1
+                    if o["exc"]:
+                        iso_exc = o["exc"]
+                        break
+                    d = core.diff_attr(o["attr"], iso[gi]["attr"])
+                    if d or o["db"] != iso[gi]["db"]:
+                        return viol("single_command_depends_on_earlier_commands_in_process",
+                                    {"command": all_ents[gi], "diffs": d, "db_equal": o["db"] == iso[gi]["db"],
+                                     "left": "fresh interpreter", "right": "after other commands"})
         if h0["exc"] and iso_exc:
             return {"verdict": "discard", "detail": "raises in isolation too: " + str(iso_exc), "stats": stats}
         if iso_exc:
@@ -302,6 +320,10 @@ def shrink_schedule(case):
         c = copy.deepcopy(case)
         c["schedule"]["cli"] = False
         yield c
+    if s.get("fresh_sample"):
+        c = copy.deepcopy(case)
+        c["schedule"]["fresh_sample"] = []
+        yield c
     if len(s.get("share_order", [])) > 2:
         for i in range(len(s["share_order"])):
             c = copy.deepcopy(case)
@@ -309,7 +331,7 @@ def shrink_schedule(case):
             yield c
 
 
-TIERS = {"quick": {"runs": 500, "wall_cap": 480}, "thorough": {"runs": 12000, "wall_cap": 3300}}
+TIERS = {"quick": {"runs": 800, "wall_cap": 480}, "thorough": {"runs": 25000, "wall_cap": 3300}}
 RULE = ("one run = one generated world (1..4 platforms, several commands per platform on overlapping files with different "
         "-D sets, shared headers that define/undefine/test macros, re-inclusion-sensitive once/guarded headers, optionally a "
         "user .cbi/config with store_split / extend_match / append_const options, modes and passes) executed under 5 history "
